@@ -179,7 +179,11 @@ def rule_agree(repo):
     return r
 
 
-RULES = [rule_agree, rule_kahn, rule_pairing, rule_netblk, rule_tick_order, rule_ffset]
+import rules.c02 as _c02
+import rules.c07 as _c07
+# reduction: C01 holds if C02 (every schedule is a linear extension of the same order, no block lost), C07 (edge
+# atomicity incl. flip coverage) hold and the simulators are assembled alike -> re-run all of their rules here
+RULES = [rule_agree] + list(_c02.RULES) + list(_c07.RULES)
 
 
 def _m(name, file, old, new, rule=None, count=1):
